@@ -47,6 +47,7 @@ m = {
         {"name": "W witnesses", "path": "engine/witness.py", "serves_properties": ["C04", "C05"], "kind_free_text": "type-level witnesses compiled with clang -fsyntax-only"},
         {"name": "M move discipline", "path": "engine/moves.py", "serves_properties": ["C05"], "kind_free_text": "use-after-consume and forwarded-storage rules"},
         {"name": "P polynomial provenance", "path": "engine/poly.py", "serves_properties": ["C14", "C18"], "kind_free_text": "normal form (integer polynomial over operand-element atoms) of the provenance terms of branch-free arithmetic code"},
+        {"name": "K state-machine execution over lattice positions", "path": "engine/walk2d.py", "serves_properties": ["C18"], "kind_free_text": "abstract execution of in-place member functions over symbolic counters and 2-d positions"},
         {"name": "L invariant-preservation rules", "path": "engine/lrules.py", "serves_properties": ["C09", "C11"], "kind_free_text": "field-write / pairing / ordering rules"},
     ],
     "checks": [CHECKS[k] for k in sorted(CHECKS)],
